@@ -81,6 +81,7 @@ class Host(object):
         self.res = res
         self.oracles = oracles
         self.model = {}      # path -> {"kind": cas|dsk|bin|empty, "files": [...], "writer": tool|peer, "bytes_expected": bytes|None}
+        self.handles = {}    # (path, kind) -> a VirtualFile object kept alive across API sessions
         self.k = 0
 
     # -- building pre-existing states (the peer / the past) ------------------------------------
@@ -721,13 +722,30 @@ class Host(object):
         mark = w.log.mark()
         w.log.add("INVOKE", "vf_session", [path, want, len(files)])
 
+        retried = {"n": 0}
+
         def session():
-            vf = mods["virtual_file"].VirtualFile(
-                mods["source_file"].SourceFile(path, file_type=mods["source_file"].SourceFileType.BINARY), vtype)
+            # "handle": a VirtualFile object kept from an earlier session on this path is re-opened (it must see what is
+            # in the host file now); "retry": a save refused for lack of append_mode is repeated with it on the same object
+            key = (path, want)
+            vf = self.handles.get(key) if op.get("handle") else None
+            if vf is None:
+                vf = mods["virtual_file"].VirtualFile(
+                    mods["source_file"].SourceFile(path, file_type=mods["source_file"].SourceFileType.BINARY), vtype)
+            else:
+                self.res.stats["probe:long_lived_virtual_file_reopened"] += 1
+            self.handles[key] = vf
             vf.open_virtual_file()
             for f in files:
                 vf.add_coco_file(to_coco(f))
-            vf.save_virtual_file(append_mode=bool(op.get("append")))
+            try:
+                vf.save_virtual_file(append_mode=bool(op.get("append")))
+            except FileExistsError:
+                if not op.get("retry"):
+                    raise
+                retried["n"] += 1
+                vf.save_virtual_file(append_mode=True)
+        # all handles were created by images of this host's first process: keep using that image for API sessions
         _, err = w.call(session)
         w.log.add("EXIT", 0 if err is None else 1, type(err).__name__ if err else None)
 
@@ -744,7 +762,9 @@ class Host(object):
             return [ev for ev in events if ev[1] in ("TRUNCATE", "WRITE", "CREATE", "REMOVE") and (key is None or ev[2] == key)]
         r.wrote = wrote
         res.stats["api:vf_session"] += 1
-        self.judge_save(r, path, want, op.get("append"), files, before, k)
+        if retried["n"]:
+            res.stats["probe:refused_save_retried_with_append_on_same_object"] += 1
+        self.judge_save(r, path, want, bool(op.get("append")) or bool(retried["n"]), files, before, k)
         return r
 
     def op_peer_write(self, op, k):
